@@ -1,6 +1,7 @@
 import PnVerif.Model.NumRecs
 import PnVerif.Lemmas.NumRecs
 import PnVerif.Lemmas.NumRecsStep
+import PnVerif.Lemmas.NumRecsSched
 /-
   C05 — the record count stays coherent across processes, memory and file header.
 
@@ -37,7 +38,7 @@ def Good (fx : Bool) (w : World) : Op → Prop
       -- a vard request that writes nothing does not reach beyond what is being written
       (w.indep = false → ∀ r ∈ w.ranks, vardContrib f r ≤ maxOver w.hi (w.ranks.filterMap (vardEnd f)))
   | .waitAll sel =>
-      -- what req_commit computes covers every marked request (true for NC_REQ_ALL and for the oldest k requests)
+      -- what req_commit computes covers every marked request (true for NC_REQ_ALL and for the first k entries of the sorted queue)
       ∀ r ∈ w.ranks, ∀ e ∈ markedRecs r (sel r.id), e ≤ litNew r (sel r.id)
   | .wait rk s => ∀ r ∈ w.ranks, r.id = rk → ∀ e ∈ markedRecs r s, e ≤ litNew r s
   | _ => True
@@ -108,10 +109,13 @@ theorem inv_step (fx : Bool) (w : World) (op : Op) (hI : Inv w) (hg : Good fx w 
     · have hc' : w.indep = false := by simpa using hc
       rw [if_pos (by rw [hc']; decide)]
       exact ⟨w, rfl, hI, Mono.refl w⟩
-  | iput rk id isRec e =>
+  | iput rk id isRec e vb ro =>
     refine ⟨_, rfl, ?_⟩
     have := inv_map_keep w hI (fun r =>
-        if r.id == rk then { r with pending := r.pending ++ [{ id := id, isRec := isRec, maxRec := if isRec then e else 0 }] } else r)
+        if r.id == rk then
+          { r with pending := insertPend r.pending { id := id, isRec := isRec, maxRec := if isRec then e else 0,
+                                                     varBegin := vb, reqOff := ro } }
+        else r)
       w.hi rfl (by intro r; split <;> rfl) (by intro r; split <;> rfl)
       (by intro r hr; split <;> exact hI.own r hr)
     exact this
@@ -291,12 +295,12 @@ theorem numrecs_inv_counterexample_deadlock : ¬ numrecs_inv_Statement false := 
 /-- rank 0 posts iput to record 0 then to record 5 and waits (wait_all) for the second only: record 5 is written,
     numrecs stays 0 on every rank and in the file -/
 def histPartialWait : List Op :=
-  [.iput 0 1 true 1, .iput 0 2 true 6, .waitAll fun i => if i = 0 then .ids [2] else .ids []]
+  [.iput 0 1 true 1 1 1, .iput 0 2 true 6 1 6, .waitAll fun i => if i = 0 then .ids [2] else .ids []]
 theorem numrecs_inv_counterexample_partial_wait : ¬ numrecs_inv_Statement false := by
   intro h
   obtain ⟨w, hw, hI, _⟩ := h 2 0 (by decide) histPartialWait
   have hrun : run false (initWorld 2 0) histPartialWait =
-      some { ranks := [{ id := 0, numrecs := 0, pending := [{ id := 1, isRec := true, maxRec := 1 }], own := 6 },
+      some { ranks := [{ id := 0, numrecs := 0, pending := [{ id := 1, isRec := true, maxRec := 1, varBegin := 1, reqOff := 1 }], own := 6 },
                        { id := 1, numrecs := 0 }], hdr := 0, hi := 6 } := by decide
   rw [hrun] at hw
   cases hw
@@ -382,11 +386,55 @@ theorem sync_restores (fx : Bool) (w : World) (hI : Inv w) (op : Op)
 /-- (d) no rank's count is below what it wrote itself -/
 theorem own_writes_readable (w : World) (hI : Inv w) : ∀ r ∈ w.ranks, r.own ≤ r.numrecs := hI.own
 
+/-! ### all relative timings: rank-local calls of different ranks commute -/
+/-- the calls a rank executes on its own, without any other rank taking part -/
+def localRank : Op → Option Nat
+  | .putIndep r _ => some r
+  | .iput r _ _ _ _ _ => some r
+  | .wait r _ => some r
+  | _ => none
+
+private theorem local_form (o : Op) (rk : Nat) (h : localRank o = some rk) :
+    ∃ (guard : Bool) (g : Rank → Rank) (en : Rank → List Nat), (∀ r, (g r).id = r.id) ∧
+      ∀ fx w, step fx w o = some (if (guard && !w.indep) = true then w else localApply rk g en w) := by
+  cases o <;> simp only [localRank, Option.some.injEq] at h <;> try (exact absurd h (by simp))
+  case putIndep r e =>
+    subst h
+    refine ⟨true, putIndepG e, fun _ => [e], putIndepG_id e, ?_⟩
+    intro fx w; rw [step_putIndep_eq]; simp
+  case iput r id isRec e vb ro =>
+    subst h
+    refine ⟨false, iputG { id := id, isRec := isRec, maxRec := if isRec then e else 0, varBegin := vb, reqOff := ro },
+            fun _ => [], iputG_id _, ?_⟩
+    intro fx w; rw [step_iput_eq]; simp
+  case wait r s =>
+    subst h
+    refine ⟨true, waitG s, waitE s, waitG_id s, ?_⟩
+    intro fx w; rw [step_wait_eq]; simp
+
+/-- between two collectives the ranks run their local calls (independent puts, posting requests, independent
+    waits) at their own pace: whichever of two ranks goes first, the world they reach is the same.  Together with
+    the matcher theorems of C08 (a matched collective has one outcome) the state after a history does not depend
+    on the relative timing of the processes. -/
+theorem schedule_independent (fx : Bool) (w : World) (o1 o2 : Op) (a b : Nat)
+    (h1 : localRank o1 = some a) (h2 : localRank o2 = some b) (hab : a ≠ b) :
+    (step fx w o1).bind (fun w1 => step fx w1 o2) = (step fx w o2).bind (fun w2 => step fx w2 o1) := by
+  obtain ⟨g1, f1, e1, hid1, hs1⟩ := local_form o1 a h1
+  obtain ⟨g2, f2, e2, hid2, hs2⟩ := local_form o2 b h2
+  rw [hs1 fx w, hs2 fx w]
+  simp only [Option.bind_some]
+  rw [hs2, hs1]
+  congr 1
+  cases hi : w.indep <;> cases g1 <;> cases g2 <;>
+    simp [hi, localApply_indep, localApply_comm a b hab f1 f2 e1 e2 hid1 hid2 w]
+
+example : localRank (.putIndep 2 12) = some 2 ∧ localRank (.wait 1 .all) = some 1 := by decide
+
 /-! ### non-vacuity: a mixed three-rank history satisfies the hypotheses and really moves the count -/
 def sampleHist : List Op :=
   [ .putAll (fun i => if i = 0 then .valid 3 else if i = 1 then .zero else .drvErr),
-    .iput 1 7 true 9, .iput 1 8 true 5, .iput 2 9 false 0,
-    .waitAll (fun i => if i = 1 then .ids [7] else .all),        -- the OLDEST request of rank 1: handled correctly
+    .iput 1 7 true 9 1 9, .iput 1 8 true 5 1 5, .iput 2 9 false 0 0 0,
+    .waitAll (fun i => if i = 1 then .ids [7] else .all),        -- the FIRST queue entry of rank 1: handled correctly
     .beginIndep, .putIndep 2 12, .wait 1 .all, .sync, .putIndep 0 14, .endIndep,
     .fillRec (fun _ => 15), .vardAll (fun i => if i = 0 then .valid 17 else .noData 16), .redef, .reopen ]
 
@@ -429,6 +477,6 @@ def obligations : List String := [
   "inv_step", "init_inv", "numrecs_inv_partial",
   "numrecs_inv_counterexample_deadlock", "numrecs_inv_counterexample_partial_wait", "numrecs_inv_counterexample_vard",
   "numrecs_inv_counterexample_repaired",
-  "collective_coherent", "sync_restores", "own_writes_readable"
+  "collective_coherent", "sync_restores", "own_writes_readable", "schedule_independent"
 ]
 end PnVerif.Props.C05
